@@ -1,9 +1,13 @@
 import Rare.Model.C02Rx
 /-!
-Parser for the fragment of Go's regexp syntax that `Model/C02Rx` gives a meaning to.  Everything else
-(`{n,m}`, `\b`, flags other than a leading `(?i)`, POSIX classes, non-ASCII, loops over bodies that can
-match the empty text, doubled repetition operators, …) is refused (`none` → the driver answers
-`unmodelled`).  The parser is *not* proved; it is compared with the real engine by the `rx` cases.
+Parser for the fragment of Go's regexp syntax that `Model/C02Rx` gives a meaning to, in both of the
+wrapper's modes: Perl (`regexp.Compile`: `syntax.Perl` = `ClassNL | OneLine | PerlX | UnicodeGroups`) and
+POSIX (`regexp.CompilePOSIX`: no flag at all – no `(?…)` groups, no lazy operators, no `\d \w \s \b \A \z`,
+`^` `$` are line-wise, a negated class does not contain the line feed).  Counted repetition `{n}` `{n,}`
+`{n,m}` is unfolded the way `syntax.Simplify` does and limited as `repeatIsValid` does (`need`).
+Everything else (flags other than a leading `(?i)`, POSIX classes, non-ASCII, `*` `+` `{n,}` over bodies that
+can match the empty text, doubled repetition operators, a `{` that is not a repetition, …) is refused
+(`none` → the driver answers `unmodelled`).  The parser is compared with the real engine by the `rx` cases.
 
 Group numbering is Go's: every capturing `(` takes the next number in the order of the opening
 parentheses, named or not; `(?:` does not count.
@@ -14,6 +18,8 @@ structure PSt where
   ng : Nat := 0
   /-- names of groups `1 … ng`, most recent first (`[]` = unnamed) -/
   names : List Bytes := []
+  /-- synthesized: the smallest `n` for which `repeatIsValid(e, n)` holds, `e` = the expression just parsed -/
+  need : Nat := 0
 
 abbrev PR := Option (Re × Bytes × PSt)
 
@@ -36,13 +42,13 @@ def isPunct (b : UInt8) : Bool :=
   b < 0x80 && b > 0x20 && b != 0x7f && !((48 ≤ b && b ≤ 57) || (65 ≤ b && b ≤ 90) || (97 ≤ b && b ≤ 122))
 
 /-- `\x` outside and inside a class: a perl class or one literal byte -/
-def escape (b : UInt8) : Option (Bool × List (UInt8 × UInt8)) :=
-  if b = 0x64 then some (false, digitR)        -- \d
-  else if b = 0x44 then some (true, digitR)    -- \D
-  else if b = 0x77 then some (false, wordR)    -- \w
-  else if b = 0x57 then some (true, wordR)     -- \W
-  else if b = 0x73 then some (false, spaceR)   -- \s
-  else if b = 0x53 then some (true, spaceR)    -- \S
+def escape (perl : Bool) (b : UInt8) : Option (Bool × List (UInt8 × UInt8)) :=
+  if b = 0x64 then (if perl then some (false, digitR) else none)        -- \d   (PerlX only)
+  else if b = 0x44 then (if perl then some (true, digitR) else none)    -- \D
+  else if b = 0x77 then (if perl then some (false, wordR) else none)    -- \w
+  else if b = 0x57 then (if perl then some (true, wordR) else none)     -- \W
+  else if b = 0x73 then (if perl then some (false, spaceR) else none)   -- \s
+  else if b = 0x53 then (if perl then some (true, spaceR) else none)    -- \S
   else if b = 0x6e then some (false, [(10, 10)])  -- \n
   else if b = 0x74 then some (false, [(9, 9)])    -- \t
   else if b = 0x72 then some (false, [(13, 13)])  -- \r
@@ -51,47 +57,47 @@ def escape (b : UInt8) : Option (Bool × List (UInt8 × UInt8)) :=
   else none
 
 /-- one literal end point inside a class -/
-def clsChar : Bytes → Option (UInt8 × Bytes)
+def clsChar (perl : Bool) : Bytes → Option (UInt8 × Bytes)
   | 0x5c :: b :: rest =>
-    match escape b with
+    match escape perl b with
     | some (false, [(x, y)]) => if x = y then some (x, rest) else none
     | _ => none
   | b :: rest => if b < 0x80 && b != 0x5b && b != 0x5d && b != 0x5c then some (b, rest) else none
   | [] => none
 
 /-- the items of a class up to the closing `]`; fuel = remaining length -/
-def clsItems : Nat → Bytes → List (UInt8 × UInt8) → Option (List (UInt8 × UInt8) × Bytes)
+def clsItems (perl : Bool) : Nat → Bytes → List (UInt8 × UInt8) → Option (List (UInt8 × UInt8) × Bytes)
   | 0, _, _ => none
   | f + 1, inp, acc =>
     match inp with
     | [] => none
     | 0x5d :: rest => if acc.isEmpty then none else some (acc.reverse, rest)
     | 0x5c :: b :: rest =>
-      match escape b with
+      match escape perl b with
       | some (false, [(x, y)]) =>
         if x = y then
           -- a literal: possibly the start of a range
           match rest with
-          | 0x2d :: 0x5d :: _ => clsItems f rest ((x, x) :: acc)
+          | 0x2d :: 0x5d :: _ => clsItems perl f rest ((x, x) :: acc)
           | 0x2d :: rest' =>
-            match clsChar rest' with
-            | some (hi, rest'') => if x ≤ hi then clsItems f rest'' ((x, hi) :: acc) else none
+            match clsChar perl rest' with
+            | some (hi, rest'') => if x ≤ hi then clsItems perl f rest'' ((x, hi) :: acc) else none
             | none => none
-          | _ => clsItems f rest ((x, x) :: acc)
-        else clsItems f rest ((x, y) :: acc)
-      | some (false, rs) => clsItems f rest (rs.reverse ++ acc)
+          | _ => clsItems perl f rest ((x, x) :: acc)
+        else clsItems perl f rest ((x, y) :: acc)
+      | some (false, rs) => clsItems perl f rest (rs.reverse ++ acc)
       | _ => none
     | b :: rest =>
       if b ≥ 0x80 || b = 0x5b then none
       else
         match rest with
-        | 0x2d :: 0x5d :: _ => clsItems f rest ((b, b) :: acc)
+        | 0x2d :: 0x5d :: _ => clsItems perl f rest ((b, b) :: acc)
         | 0x2d :: rest' =>
           if b = 0x2d then none else
-          match clsChar rest' with
-          | some (hi, rest'') => if b ≤ hi then clsItems f rest'' ((b, hi) :: acc) else none
+          match clsChar perl rest' with
+          | some (hi, rest'') => if b ≤ hi then clsItems perl f rest'' ((b, hi) :: acc) else none
           | none => none
-        | _ => clsItems f rest ((b, b) :: acc)
+        | _ => clsItems perl f rest ((b, b) :: acc)
 
 def isRepOp (b : UInt8) : Bool := b = 0x2a || b = 0x2b || b = 0x3f
 
@@ -107,109 +113,157 @@ def catS (a b : Re) : Re :=
   | .eps => a
   | _ => .cat a b
 
-/-- postfix operators after an atom -/
-def postOp (a : Re) (inp : Bytes) : Option (Re × Bytes) :=
+/-- decimal number as `parseInt` reads it: no leading zero, at most 4 digits here (`> 1000` is refused anyway) -/
+def takeNum : Bytes → Option (Nat × Bytes)
+  | inp =>
+    let ds := inp.takeWhile fun b => 48 ≤ b && b ≤ 57
+    if ds.isEmpty || ds.length > 4 || (ds.length ≥ 2 && ds.head? = some 48) then none
+    else some (ds.foldl (fun acc d => acc * 10 + (d.toNat - 48)) 0, inp.drop ds.length)
+
+/-- `{n}` `{n,}` `{n,m}` after the `{` (`parseRepeat` + the size checks of the parse loop) -/
+def takeRepeat (inp : Bytes) : Option (Nat × Option Nat × Bytes) :=
+  match takeNum inp with
+  | none => none
+  | some (n, rest) =>
+    if n > 1000 then none else
+    match rest with
+    | 0x7d :: r => some (n, some n, r)
+    | 0x2c :: 0x7d :: r => some (n, none, r)
+    | 0x2c :: r =>
+      match takeNum r with
+      | some (m, 0x7d :: r2) => if m > 1000 || m < n then none else some (n, some m, r2)
+      | _ => none
+    | _ => none
+
+/-- `repeatIsValid`: the smallest budget a repetition with these bounds over a body needing `sub` needs -/
+def repeatNeed (min : Nat) (max : Option Nat) (sub : Nat) : Nat :=
+  match max with
+  | some 0 => 0
+  | _ =>
+    let m := max.getD min
+    if m = 0 then sub else Nat.max m (m * sub)
+
+/-- postfix operators after an atom (`need` = the atom's); a second operator is refused (an error in Perl
+mode, a repetition of a repetition in POSIX mode) -/
+def postOp (perl : Bool) (a : Re) (need : Nat) (inp : Bytes) : Option (Re × Bytes × Nat) :=
   match inp with
   | op :: rest =>
-    if isRepOp op then
-      let (lazy, rest) := match rest with
-        | 0x3f :: r => (true, r)
-        | _ => (false, rest)
-      -- a second repetition operator is an error in Go (`a**`)
-      match rest with
-      | b :: _ => if isRepOp b || b = 0x7b then none else
-        if op = 0x3f then some (if lazy then .alt .eps a else .alt a .eps, rest)
-        else if nullable a then none
-        else if op = 0x2a then some (.star (!lazy) a, rest)
-        else some (.cat a (.star (!lazy) a), rest)
-      | [] =>
-        if op = 0x3f then some (if lazy then .alt .eps a else .alt a .eps, rest)
-        else if nullable a then none
-        else if op = 0x2a then some (.star (!lazy) a, rest)
-        else some (.cat a (.star (!lazy) a), rest)
-    else if op = 0x7b then none
-    else some (a, inp)
-  | [] => some (a, inp)
+    if isRepOp op || op = 0x7b then
+      let bounds : Option (Nat × Option Nat × Bytes) :=
+        if op = 0x7b then takeRepeat rest
+        else if op = 0x3f then some (0, some 1, rest)
+        else if op = 0x2a then some (0, none, rest)
+        else some (1, none, rest)
+      match bounds with
+      | none => none
+      | some (min, max, rest) =>
+        let (lazy, rest) := match rest with
+          | 0x3f :: r => if perl then (true, r) else (false, rest)
+          | _ => (false, rest)
+        let doubled := match rest with
+          | b :: _ => isRepOp b || b = 0x7b
+          | [] => false
+        let nd := repeatNeed min max need
+        if doubled then none
+        else if max.isNone && nullable a then none
+        else if nd > 1000 then none
+        else some (repeatRe (!lazy) a min max, rest, nd)
+    else some (a, inp, need)
+  | [] => some (a, inp, need)
 
 mutual
-def pAlt : Nat → Bool → Bytes → PSt → PR
-  | 0, _, _, _ => none
-  | f + 1, fold, inp, st =>
-    match pCat f fold inp st with
+def pAlt : Nat → Bool → Bool → Bytes → PSt → PR
+  | 0, _, _, _, _ => none
+  | f + 1, perl, fold, inp, st =>
+    match pCat f perl fold inp st with
     | none => none
     | some (a, rest, st) =>
       match rest with
       | 0x7c :: rest' =>
-        match pAlt f fold rest' st with
-        | some (b, r2, st2) => some (.alt a b, r2, st2)
+        match pAlt f perl fold rest' st with
+        | some (b, r2, st2) => some (.alt a b, r2, { st2 with need := Nat.max st.need st2.need })
         | none => none
       | _ => some (a, rest, st)
 
-def pCat : Nat → Bool → Bytes → PSt → PR
-  | 0, _, _, _ => none
-  | f + 1, fold, inp, st =>
+def pCat : Nat → Bool → Bool → Bytes → PSt → PR
+  | 0, _, _, _, _ => none
+  | f + 1, perl, fold, inp, st =>
     match inp with
-    | [] => some (.eps, [], st)
-    | 0x7c :: _ => some (.eps, inp, st)
-    | 0x29 :: _ => some (.eps, inp, st)
+    | [] => some (.eps, [], { st with need := 0 })
+    | 0x7c :: _ => some (.eps, inp, { st with need := 0 })
+    | 0x29 :: _ => some (.eps, inp, { st with need := 0 })
     | _ =>
-      match pAtom f fold inp st with
+      match pAtom f perl fold inp st with
       | none => none
       | some (a, rest, st) =>
-        match postOp a rest with
+        match postOp perl a st.need rest with
         | none => none
-        | some (a, rest) =>
-          match pCat f fold rest st with
+        | some (a, rest, nd) =>
+          match pCat f perl fold rest st with
           | none => none
-          | some (b, r2, st2) => some (catS a b, r2, st2)
+          | some (b, r2, st2) => some (catS a b, r2, { st2 with need := Nat.max nd st2.need })
 
-def pAtom : Nat → Bool → Bytes → PSt → PR
-  | 0, _, _, _ => none
-  | f + 1, fold, inp, st =>
+def pAtom : Nat → Bool → Bool → Bytes → PSt → PR
+  | 0, _, _, _, _ => none
+  | f + 1, perl, fold, inp, st =>
     match inp with
     | [] => none
-    | 0x28 :: 0x3f :: 0x3a :: rest =>            -- (?:
-      match pAlt f fold rest st with
-      | some (a, 0x29 :: r2, st2) => some (a, r2, st2)
-      | _ => none
-    | 0x28 :: 0x3f :: rest =>                    -- (?P<name> / (?<name>
-      let rest := match rest with
-        | 0x50 :: r => r
-        | _ => rest
+    | 0x28 :: 0x3f :: rest =>
+      if !perl then none else                    -- POSIX mode has no `(?`
       match rest with
-      | 0x3c :: rest =>
-        match takeName rest [] with
-        | some (name, rest) =>
-          if st.names.contains name then none else
-          let n := st.ng + 1
-          match pAlt f fold rest { ng := n, names := name :: st.names } with
-          | some (a, 0x29 :: r2, st2) => some (.grp n a, r2, st2)
-          | _ => none
-        | none => none
-      | _ => none
+      | 0x3a :: rest =>                          -- (?:
+        match pAlt f perl fold rest st with
+        | some (a, 0x29 :: r2, st2) => some (a, r2, st2)
+        | _ => none
+      | _ =>                                     -- (?P<name> / (?<name>
+        let rest := match rest with
+          | 0x50 :: r => r
+          | _ => rest
+        match rest with
+        | 0x3c :: rest =>
+          match takeName rest [] with
+          | some (name, rest) =>
+            if st.names.contains name then none else
+            let n := st.ng + 1
+            match pAlt f perl fold rest { st with ng := n, names := name :: st.names } with
+            | some (a, 0x29 :: r2, st2) => some (.grp n a, r2, st2)
+            | _ => none
+          | none => none
+        | _ => none
     | 0x28 :: rest =>
       let n := st.ng + 1
-      match pAlt f fold rest { ng := n, names := [] :: st.names } with
+      match pAlt f perl fold rest { st with ng := n, names := [] :: st.names } with
       | some (a, 0x29 :: r2, st2) => some (.grp n a, r2, st2)
       | _ => none
     | 0x5b :: 0x5e :: rest =>
-      match clsItems (rest.length + 1) rest [] with
-      | some (rs, r2) => some (mkCls fold true rs, r2, st)
+      match clsItems perl (rest.length + 1) rest [] with
+      -- without `ClassNL` (POSIX mode) the line feed is added before the negation
+      | some (rs, r2) => some (mkCls fold true (if perl then rs else (10, 10) :: rs), r2, { st with need := 0 })
       | none => none
     | 0x5b :: rest =>
-      match clsItems (rest.length + 1) rest [] with
-      | some (rs, r2) => some (mkCls fold false rs, r2, st)
+      match clsItems perl (rest.length + 1) rest [] with
+      | some (rs, r2) => some (mkCls fold false rs, r2, { st with need := 0 })
       | none => none
-    | 0x2e :: rest => some (.cls true [(10, 10)], rest, st)
-    | 0x5e :: rest => some (.bol, rest, st)
-    | 0x24 :: rest => some (.eol, rest, st)
+    | 0x2e :: rest => some (.cls true [(10, 10)], rest, { st with need := 0 })
+    | 0x5e :: rest => some (.look (if perl then .bot else .bol), rest, { st with need := 0 })
+    | 0x24 :: rest => some (.look (if perl then .eot else .eol), rest, { st with need := 0 })
     | 0x5c :: b :: rest =>
-      match escape b with
-      | some (neg, rs) => some (mkCls fold neg rs, rest, st)
-      | none => none
+      let lk : Option Look :=
+        if !perl then none
+        else if b = 0x41 then some .bot          -- \A
+        else if b = 0x7a then some .eot          -- \z
+        else if b = 0x62 then some .wb           -- \b
+        else if b = 0x42 then some .nwb          -- \B
+        else none
+      match lk with
+      | some k => some (.look k, rest, { st with need := 0 })
+      | none =>
+        match escape perl b with
+        | some (neg, rs) => some (mkCls fold neg rs, rest, { st with need := 0 })
+        | none => none
     | b :: rest =>
       if b ≥ 0x80 || isRepOp b || b = 0x7b || b = 0x7d || b = 0x5d || b = 0x29 || b = 0x7c || b = 0x5c then none
-      else some (mkCls fold false [(b, b)], rest, st)
+      else some (mkCls fold false [(b, b)], rest, { st with need := 0 })
 end
 
 structure Parsed where
@@ -221,10 +275,13 @@ structure Parsed where
 /-- the literal `(?i)` -/
 def icFlag : Bytes := [0x28, 0x3f, 0x69, 0x29]
 
-def parse (pat : Bytes) : Option Parsed :=
-  let (fold, body) := if icFlag.isPrefixOf pat then (true, pat.drop 4) else (false, pat)
-  match pAlt (4 * body.length + 8) fold body {} with
+/-- `posix = false`: `regexp.Compile`; `posix = true`: `regexp.CompilePOSIX` -/
+def parseEx (posix : Bool) (pat : Bytes) : Option Parsed :=
+  let (fold, body) := if !posix && icFlag.isPrefixOf pat then (true, pat.drop 4) else (false, pat)
+  match pAlt (4 * body.length + 8) (!posix) fold body {} with
   | some (r, [], st) => some ⟨r, st.ng, [] :: st.names.reverse⟩
   | _ => none
+
+def parse (pat : Bytes) : Option Parsed := parseEx false pat
 
 end Rare.C02.Rx
